@@ -134,16 +134,21 @@ def pad_trim_rule(ctx, p, K):
     t = c.lookup("trimmed_after_convolution_from")
     if t is None:
         raise AnchorMissing("AbstractArray2D.trimmed_after_convolution_from")
-    txt = {norm_text(n.targets[0]): norm_text(n.value).replace(" ", "") for n in t.body_nodes() if isinstance(n, ast.Assign)}
-    ok = txt.get("psf_cut_y") == "int(np.ceil(kernel_shape[0]/2))-1" and txt.get("psf_cut_x") == "int(np.ceil(kernel_shape[1]/2))-1" \
-        and txt.get("array_y") == "int(self.mask.shape[0])" and txt.get("array_x") == "int(self.mask.shape[1])" \
-        and txt.get("trimmed_array_2d") == "self.native[psf_cut_y:array_y-psf_cut_y,psf_cut_x:array_x-psf_cut_x]"
-    ctx.ob(rule, t.key + ":window", ok, where=t, node=t.node, construct=str({k: v for k, v in txt.items() if k.startswith(("psf", "array_", "trimmed"))})[:400],
-           message="trimming must cut ceil(K/2) - 1 cells from both ends of each axis, each axis with its own kernel extent and array extent")
-    ok2 = txt.get("resized_mask") == "self.mask.resized_from(new_shape=trimmed_array_2d.shape)" and txt.get("array") == "array_2d_util.convert_array_2d(array_2d=trimmed_array_2d,mask_2d=resized_mask)"
+    # name-free: every local temporary of the method is inlined before comparing
     rets = wire.returns_of(t)
-    kwv = {k: norm_text(v) for k, v in wire.kw(rets[0].value).items()} if rets and isinstance(rets[0].value, ast.Call) else {}
-    ctx.ob(rule, t.key + ":mask", ok2 and kwv.get("mask") == "resized_mask" and kwv.get("values") == "array", where=t, node=t.node, construct=str(kwv), message="the trimmed values must be returned on the parent mask resized (centred) to the trimmed shape")
+    kwn = wire.kw(rets[0].value) if len(rets) == 1 and isinstance(rets[0].value, ast.Call) else {}
+    cy, cx = "(int(np.ceil(kernel_shape[0] / 2)) - 1)", "(int(np.ceil(kernel_shape[1] / 2)) - 1)"
+    window = f"self.native[{cy}:int(self.mask.shape[0]) - {cy}, {cx}:int(self.mask.shape[1]) - {cx}]"
+    vals = wire.inline_locals(t, kwn["values"]) if "values" in kwn else None
+    arr = wire.kw(vals).get("array_2d") if isinstance(vals, ast.Call) and norm_text(vals.func).endswith("convert_array_2d") else None
+    ok = arr is not None and norm_text(arr, 2000) == canon_src(window, 2000)
+    ctx.ob(rule, t.key + ":window", ok, where=t, node=t.node, construct=norm_text(arr, 400) if arr is not None else "no converted window",
+           message="trimming must cut ceil(K/2) - 1 cells from both ends of each axis, each axis with its own kernel extent and array extent")
+    want_mask = canon_src(f"self.mask.resized_from(new_shape={window}.shape)", 2000)
+    m_ret = norm_text(wire.inline_locals(t, kwn["mask"]), 2000) if "mask" in kwn else None
+    m_conv = norm_text(wire.kw(vals).get("mask_2d"), 2000) if arr is not None and wire.kw(vals).get("mask_2d") is not None else None
+    kwv = {k: norm_text(v) for k, v in kwn.items()}
+    ctx.ob(rule, t.key + ":mask", m_ret == want_mask and m_conv == want_mask, where=t, node=t.node, construct=str(kwv)[:300], message="the trimmed values must be returned on the parent mask resized (centred) to the trimmed shape")
     # pad -> trim identity for odd kernels, by parity algebra: N' = N + K - 1, source placed at floor(N'/2) - floor(N/2), window starts at ceil(K/2) - 1
     n, h = S_("n"), S_("h")
     bad = []
@@ -218,7 +223,8 @@ def class_rule(ctx, p):
     got = {k: norm_text(wire.strip_np_array(v)) for k, v in wire.kw(cs[0], callee).items()} if len(cs) == 1 else {}
     rets = wire.returns_of(mm)
     kwv = {k: norm_text(v) for k, v in wire.kw(rets[0].value).items()} if rets and isinstance(rets[0].value, ast.Call) else {}
-    ctx.ob(rule, mm.key, got == {"array_2d": "self", "resized_shape": "new_shape", "pad_value": "pad_value"} and kwv == {"mask": "resized_mask", "pixel_scales": "self.pixel_scales", "origin": "self.origin"},
+    kwv.pop("mask", None)   # where the mask comes from is the sole-producer obligation below
+    ctx.ob(rule, mm.key, got == {"array_2d": "self", "resized_shape": "new_shape", "pad_value": "pad_value"} and kwv == {"pixel_scales": "self.pixel_scales", "origin": "self.origin"},
            where=mm, node=rets[0] if rets else mm.node, construct=f"{got} -> {kwv}", message="the resized mask must keep the parent's pixel scales AND origin (otherwise surviving pixels lose their coordinates)")
     _sole_producer(ctx, rule, mm, cs, rets, "mask", "the resized mask")
     # automatic padding when masking: data and noise map padded identically
